@@ -73,7 +73,8 @@ struct Gen {
         if (hard) {
             int k = (int)r.u(10);
             switch (k) {
-            case 0: { Arr &A = arrays[r.u(arrays.size())]; c.op("breach dimension-count | rank " + str(A.shape.size())); bool referenced = false; for (auto &tg : tags) for (auto &ref : tg.references()) if (ref.id() == A.a.id()) referenced = true; for (auto &tg : mtags) for (auto &ref : tg.references()) if (ref.id() == A.a.id()) referenced = true;
+            case 0: { Arr &A = arrays[r.u(arrays.size())]; for (auto &o : out) if (o.entity_id == A.a.id()) return false;   /* a second descriptor-count change on the same array could restore the count */
+                c.op("breach dimension-count | rank " + str(A.shape.size())); bool referenced = false; for (auto &tg : tags) for (auto &ref : tg.references()) if (ref.id() == A.a.id()) referenced = true; for (auto &tg : mtags) for (auto &ref : tg.references()) if (ref.id() == A.a.id()) referenced = true;
                 for (auto &o : out) if (o.entity_id == A.a.id() || o.name.find("/" + A.a.name() + "/") != std::string::npos) referenced = true;   // another breach already sits on this array's descriptors
                 if (r.chance(0.5) || A.shape.size() == 1 || referenced) A.a.appendSetDimension(); else {   /* (removing the descriptors of a referenced array would change what the tag-unit rule can see) */ /* one descriptor too few */ std::vector<int> ks = A.kinds; A.a.deleteDimensions(); A.a.appendSetDimension(); A.kinds.assign(1, 2); A.all_units = false; } out.push_back({"dimension-count", A.a.id(), true, false, nullptr}); return true; }
             case 1: { for (size_t t = 0; t < 8; t++) { Arr &A = arrays[r.u(arrays.size())]; if (A.a.dimensionCount() != A.shape.size()) continue; for (size_t d = 0; d < A.kinds.size(); d++) if (A.kinds[d] == 1 && r.chance(0.6)) { RangeDimension rd = A.a.getDimension(d + 1).asRangeDimension(); std::vector<double> tk = rd.ticks(); tk.push_back(tk.back() + 1.0); if (r.chance(0.5)) tk.push_back(tk.back() + 1.0); c.op("breach tick-count | dim " + str(d + 1) + " of " + str(A.kinds.size())); rd.ticks(tk); out.push_back({"tick-count/dim" + str(d + 1) + "of" + str(A.kinds.size()), A.a.id(), true, false, nullptr}); return true; } } return false; }
